@@ -85,9 +85,9 @@ class Facts:
         self._exp = None
         self.timings = {}
 
-    def _touch_and_prune(self, keep=10, max_age=6 * 3600):
+    def _touch_and_prune(self, keep=30, max_age=45 * 60, cap=150):
         """the cache is keyed by content; scratch copies (controls, seeds) leave entries behind: keep the `keep` most
-        recently used ones and anything used in the last hours"""
+        recently used ones and anything used in the last 45 minutes, and never more than `cap` entries (about 50 MB each)"""
         base = os.path.join(VERIF, '.cache')
         try:
             if os.path.isdir(self.dir):
@@ -95,8 +95,8 @@ class Facts:
             ents = [(os.path.getmtime(os.path.join(base, d)), d) for d in os.listdir(base) if os.path.isdir(os.path.join(base, d))]
             ents.sort(reverse=True)
             now = time.time()
-            for mt, d in ents[keep:]:
-                if now - mt > max_age and d != self.key[:24]:
+            for i_, (mt, d) in enumerate(ents[keep:], keep):
+                if (now - mt > max_age or i_ >= cap) and d != self.key[:24]:
                     shutil.rmtree(os.path.join(base, d), ignore_errors=True)
                     try:
                         os.remove(os.path.join(base, d + '.lock'))
